@@ -32,7 +32,7 @@ META = dict(
               "4 densities x 4 density forms; 7 global wavelengths + all nodes/midpoints/outside points of the "
               "energy tables; wavelength= and energy=; scalar and vectors of length 1, 2, 5, full grid",
         thorough="quick + all triples over a 9-atom sub-alphabet x 27 count triples; quarter points between table "
-                 "nodes; node sweeps in every density form at density 1 and with density= at every density"),
+                 "nodes; node sweeps in every density form at density 1 and with density=25"),
     assumptions=[
         "the embedded table text (nsf.nsftable, nsf_tables, mass, density) is the source of truth; that the library "
         "serves those values is C06/C07",
@@ -488,15 +488,17 @@ def do_single(ck, key, thorough):
         for kind, dv, form in dforms:
             dspec = (kind, dv)
             sweep = has_nodes and ((d == 1.0 and (thorough or kind in ("density", "tag")))
-                                   or (thorough and kind == "density"))
+                                   or (thorough and kind == "density" and d == 25.0))
             if form == "string":
                 # strings are parsed on every call: one scalar, one vector
                 ck.case("compound", frags, form, dspec, ("wl", [1.798], "scalar"))
                 ck.case("compound", frags, form, dspec, ("en", (full if sweep else grid), "vector"))
                 continue
+            gset = set(grid)
             for w in (full if sweep else grid):
                 ck.case("compound", frags, form, dspec, ("wl", [w], "scalar"))
-                ck.case("compound", frags, form, dspec, ("en", [w], "scalar"))
+                if w in gset or thorough:            # table points as energy= go through the vector call
+                    ck.case("compound", frags, form, dspec, ("en", [w], "scalar"))
             for v in vecs + ([full] if sweep else []):
                 ck.case("compound", frags, form, dspec, ("wl", v, "vector"))
                 ck.case("compound", frags, form, dspec, ("en", v, "vector"))
@@ -515,14 +517,16 @@ def do_compound(ck, frags, thorough):
         for kind, dv, form in dforms:
             dspec = (kind, dv)
             sweep = has_nodes and ((d == 1.0 and (thorough or kind in ("density", "tag")))
-                                   or (thorough and kind == "density"))
+                                   or (thorough and kind == "density" and d == 25.0))
             if form == "string":
                 ck.case("compound", frags, form, dspec, ("wl", [1.798], "scalar"))
                 ck.case("compound", frags, form, dspec, ("en", (full if sweep else grid), "vector"))
                 continue
+            gset = set(grid)
             for w in (full if sweep else grid):
                 ck.case("compound", frags, form, dspec, ("wl", [w], "scalar"))
-                ck.case("compound", frags, form, dspec, ("en", [w], "scalar"))
+                if w in gset or thorough:            # table points as energy= go through the vector call
+                    ck.case("compound", frags, form, dspec, ("en", [w], "scalar"))
             for v in vecs + ([full] if sweep else []):
                 ck.case("compound", frags, form, dspec, ("wl", v, "vector"))
                 ck.case("compound", frags, form, dspec, ("en", v, "vector"))
